@@ -3,16 +3,20 @@
 package home
 
 import (
+	"context"
 	"crypto/tls"
 	"encoding/json"
+	"errors"
 	"fmt"
 	"net/http"
 	"net/http/httptest"
 	"os"
 	"path/filepath"
 	"sort"
+	"regexp"
 	"strings"
 	"testing"
+	"testing/fstest"
 	"time"
 
 	"github.com/AdguardTeam/AdGuardHome/internal/aghhttp"
@@ -21,8 +25,10 @@ import (
 	"github.com/AdguardTeam/AdGuardHome/internal/filtering"
 	"github.com/AdguardTeam/AdGuardHome/internal/querylog"
 	"github.com/AdguardTeam/AdGuardHome/internal/stats"
+	"github.com/AdguardTeam/golibs/logutil/slogutil"
 	"github.com/AdguardTeam/golibs/netutil"
 	"github.com/NYTimes/gziphandler"
+	"golang.org/x/crypto/bcrypt"
 )
 
 // ---------------------------------------------------------------------------
@@ -34,10 +40,169 @@ type c11Req struct {
 	ctype   string // "" none
 	body    int    // 0 none, 1 body with Content-Length, 2 body of unknown length
 	cookie  int    // 0 none, 1 unknown, 2 expired, 3 valid, 4 valid and due for refresh, 5 upper-case spelling of 3, 6 of 4
-	basic   int    // 0 none, 1 wrong, 2 right
+	basic   int    // 0 none, 1 wrong, 2 right, 3 the pair (buser, bpass)
 	tls     bool
 	badHost bool
 	encoded bool // path is given percent-encoded: let net/url decode it
+	hdrs    int  // index into c11Hdrs: further headers of the request
+	buser   string
+	bpass   string
+}
+
+// c11Methods: the registered methods and the others a client may send (the
+// mux and the wrappers compare the method string as sent).
+var c11Methods = []string{"GET", "POST", "PUT", "DELETE", "HEAD", "OPTIONS", "PATCH", "TRACE", "CONNECT", "PROPFIND", "get"}
+
+// c11Hdrs: header battery.  None of them is Cookie / Authorization /
+// Content-Type: the refusal must not depend on any of these.
+var c11Hdrs = [][][2]string{
+	{},
+	{{"Origin", "http://evil.example"}},
+	{{"Origin", "http://agh.example"}, {"Access-Control-Request-Method", "POST"}, {"Access-Control-Request-Headers", "content-type"}},
+	{{"X-Requested-With", "XMLHttpRequest"}},
+	{{"Upgrade", "websocket"}, {"Connection", "Upgrade"}, {"Sec-WebSocket-Version", "13"}},
+	{{"X-Forwarded-For", "127.0.0.1"}, {"X-Real-IP", "127.0.0.1"}},
+	{{"Sec-Fetch-Mode", "cors"}, {"Sec-Fetch-Site", "same-origin"}},
+	{{"Referer", "http://agh.example/login.html"}},
+	{{"X-HTTP-Method-Override", "GET"}},
+	{{"Origin", "null"}, {"Accept", "text/html"}},
+	{{"Forwarded", "for=127.0.0.1;proto=https"}},
+	{{"X-Forwarded-Proto", "https"}, {"X-Forwarded-Host", "localhost"}},
+	{{"Expect", "100-continue"}},
+	{{"Upgrade", "h2c"}, {"HTTP2-Settings", "AAMAAABkAAQCAAAAAAIAAAAA"}},
+	{{"Origin", "http://x"}, {"Upgrade", "websocket"}, {"X-Requested-With", "x"}, {"Access-Control-Request-Method", "GET"}},
+}
+
+func c11HdrClasses(q c11Req) (cl []string) {
+	has := map[string]bool{}
+	for _, h := range c11Hdrs[q.hdrs] {
+		has[h[0]] = true
+	}
+	if has["Origin"] {
+		cl = append(cl, "hdr-origin")
+		if q.method == "OPTIONS" {
+			cl = append(cl, "preflight-shaped")
+		}
+	}
+	if has["Access-Control-Request-Method"] {
+		cl = append(cl, "hdr-acrm")
+	}
+	if has["X-Requested-With"] {
+		cl = append(cl, "hdr-xrw")
+	}
+	if has["Upgrade"] {
+		cl = append(cl, "hdr-upgrade")
+	}
+	if len(has) > 0 && !has["Origin"] && !has["Access-Control-Request-Method"] && !has["X-Requested-With"] && !has["Upgrade"] {
+		cl = append(cl, "hdr-other")
+	}
+	switch q.method {
+	case "GET", "POST", "PUT", "DELETE":
+	default:
+		cl = append(cl, "method-"+q.method)
+	}
+	return cl
+}
+
+// ---------------------------------------------------------------------------
+// Accounts.  Fixed stored hashes (the same constants as Run/C11.v
+// std_accounts; the CAccounts case ties the two): accounts 0 and 1 are
+// well-formed bcrypt hashes (cost 4) of c12Pass; the others are what a
+// botched manual edit of users[].password leaves behind.
+
+const (
+	c11H1 = "$2a$04$/hHIwu60CZqkB0tMLFfUzeuxjUv9yNRiIgS5x4t.8fw48hPyLMx5S"
+	c11H2 = "$2a$04$ZzPhPgJ98a0vaqlMZyvDseqUHqyZ4wsi1GFKCHZUnwJIVW2VBtViO"
+	c11H3 = "$2a$04$EjM0rHn.WW5faHGsdIh6FOt2j0Lbs/ekX.3n8WPovgmjjGMt1GTS."
+)
+
+func c11Accounts() []webUser {
+	return []webUser{
+		{Name: c12User, PasswordHash: c11H1},
+		{Name: "second", PasswordHash: c11H2},
+		{Name: "trunc", PasswordHash: c11H1[:30]},
+		{Name: "plain", PasswordHash: c12Pass},
+		{Name: "empty", PasswordHash: ""},
+		{Name: "lowcost", PasswordHash: "$2a$03$" + c11H1[7:]},
+		{Name: "badver", PasswordHash: "$3a$04$" + c11H1[7:]},
+		{Name: "badprefix", PasswordHash: "x" + c11H1[1:]},
+		{Name: "highcost", PasswordHash: "$2a$32$" + c11H1[7:]},
+		{Name: "trunc59", PasswordHash: c11H1[:59]},
+		{Name: "dup", PasswordHash: c11H3[:20]},
+		{Name: "dup", PasswordHash: c11H3},
+	}
+}
+
+// c11WellFormed: the textual shape of a bcrypt hash as the install wizard /
+// htpasswd -B produce it; written out here, independent of x/crypto.
+var c11WellFormedRe = regexp.MustCompile(`^\$2[abxy]?\$(0[4-9]|[12][0-9]|3[01])\$[./A-Za-z0-9]{53}$`)
+
+// c11Bcrypt: the oracle: bcrypt.CompareHashAndPassword called directly.
+// 0 nil, 1 ErrMismatchedHashAndPassword, 2 any other error.
+var c11BcCache = map[string]int{}
+
+func c11Bcrypt(hash, pw string) int {
+	k := hash + "\x00" + pw
+	if v, ok := c11BcCache[k]; ok {
+		return v
+	}
+	err := bcrypt.CompareHashAndPassword([]byte(hash), []byte(pw))
+	v := 2
+	switch {
+	case err == nil:
+		v = 0
+	case errors.Is(err, bcrypt.ErrMismatchedHashAndPassword):
+		v = 1
+	}
+	c11BcCache[k] = v
+	return v
+}
+
+var c11BcNames = []string{"BcOk", "BcMismatch", "BcError"}
+
+// c11Oracle: the oracle's answers for every account named login, as
+// (index, password, answer) triples.
+func c11Oracle(us []webUser, login, pw string) string {
+	items := []string{}
+	for i, u := range us {
+		if u.Name == login {
+			items = append(items, "("+vfN(uint64(i))+", "+vfBytes(pw)+", "+c11BcNames[c11Bcrypt(u.PasswordHash, pw)]+")")
+		}
+	}
+	return vfList("N * bytes * bc_res", items)
+}
+
+// c11ShouldAuth: the property's reading of "correct basic credentials",
+// without the model: some account with this name has a well-formed stored
+// hash and bcrypt accepts the password for it.
+func c11ShouldAuth(us []webUser, login, pw string) bool {
+	for _, u := range us {
+		if u.Name == login && c11WellFormedRe.MatchString(u.PasswordHash) && c11Bcrypt(u.PasswordHash, pw) == 0 {
+			return true
+		}
+	}
+	return false
+}
+
+func c11AccountsCoq(us []webUser) string {
+	items := make([]string, len(us))
+	for i, u := range us {
+		items[i] = vfPair(vfBytes(u.Name), vfBytes(u.PasswordHash))
+	}
+	return vfList("bytes * bytes", items)
+}
+
+// c11Basic: the (user, password) pair a request shape sends.
+func c11Basic(q c11Req) (user, pass string, ok bool) {
+	switch q.basic {
+	case 1:
+		return c12User, "wrong", true
+	case 2:
+		return c12User, c12Pass, true
+	case 3:
+		return q.buser, q.bpass, true
+	}
+	return "", "", false
 }
 
 type c11Env struct {
@@ -143,9 +308,19 @@ func (wd *c11World) resetSessions(a *Auth, now uint32) (coq string) {
 	return c11STable(a)
 }
 
-func c11EnvCoq(e c11Env, authPresent bool, now int64, ttl uint32) string {
-	return fmt.Sprintf("{| e_first_run := %s; e_auth_present := %s; e_users := %s; e_https := %s; e_force_https := %s; e_now := %s; e_ttl := %s |}",
-		vfBool(e.firstRun), vfBool(authPresent), vfBool(e.users && authPresent), vfBool(e.https > 0), vfBool(e.https == 2), vfN(uint64(now)), vfN(uint64(ttl)))
+// c11EnvCoq: the accounts are Run/C11.v's std_accounts (by reference: the
+// CAccounts case checks that they are the users of the real Auth object); the
+// oracle holds the answers bcrypt gave for the credentials of request q.
+func c11EnvCoq(e c11Env, authPresent bool, now int64, ttl uint32, q c11Req) string {
+	accounts, oracle := "(@nil (bytes * bytes))", "(C11.orc [])"
+	if e.users && authPresent {
+		accounts = "C11.std_accounts"
+		if u, p, ok := c11Basic(q); ok {
+			oracle = "(C11.orc " + c11Oracle(c11Accounts(), u, p) + ")"
+		}
+	}
+	return fmt.Sprintf("{| e_first_run := %s; e_auth_present := %s; e_accounts := %s; e_bcrypt := %s; e_https := %s; e_force_https := %s; e_now := %s; e_ttl := %s |}",
+		vfBool(e.firstRun), vfBool(authPresent), accounts, oracle, vfBool(e.https > 0), vfBool(e.https == 2), vfN(uint64(now)), vfN(uint64(ttl)))
 }
 
 func c11STable(a *Auth) string {
@@ -169,14 +344,24 @@ func c11Build(q c11Req) *http.Request {
 	var r *http.Request
 	body := `{"a":1}`
 	target := "http://agh.example" + q.path
+	// CONNECT has its own request-line syntax: build as GET, then set the
+	// method the way the server would have parsed it
+	m := q.method
+	if m == "CONNECT" {
+		m = "GET"
+	}
 	switch q.body {
 	case 0:
-		r = httptest.NewRequest(q.method, target, nil)
+		r = httptest.NewRequest(m, target, nil)
 	case 1:
-		r = httptest.NewRequest(q.method, target, strings.NewReader(body))
+		r = httptest.NewRequest(m, target, strings.NewReader(body))
 	default:
-		r = httptest.NewRequest(q.method, target, struct{ *strings.Reader }{strings.NewReader(body)})
+		r = httptest.NewRequest(m, target, struct{ *strings.Reader }{strings.NewReader(body)})
 		r.ContentLength = -1
+	}
+	r.Method = q.method
+	for _, h := range c11Hdrs[q.hdrs] {
+		r.Header.Set(h[0], h[1])
 	}
 	if !q.encoded {
 		r.URL.Path = q.path
@@ -187,11 +372,8 @@ func c11Build(q c11Req) *http.Request {
 	if q.cookie > 0 {
 		r.AddCookie(&http.Cookie{Name: sessionCookieName, Value: c11Tokens[q.cookie]})
 	}
-	switch q.basic {
-	case 1:
-		r.SetBasicAuth(c12User, "wrong")
-	case 2:
-		r.SetBasicAuth(c12User, c12Pass)
+	if u, p, ok := c11Basic(q); ok {
+		r.SetBasicAuth(u, p)
 	}
 	if q.tls {
 		r.TLS = &tls.ConnectionState{}
@@ -215,11 +397,23 @@ func c11CoqReq(q c11Req, users bool) string {
 		cookie = vfApp("CTok", vfBytes(c11Tokens[q.cookie]))
 	}
 	basic := "BNone"
-	if q.basic > 0 {
-		basic = vfApp("BCred", vfBool(q.basic == 2 && users))
+	if u, p, ok := c11Basic(q); ok {
+		basic = vfApp("BCred", vfBytes(u), vfBytes(p))
 	}
-	return fmt.Sprintf("{| r_method := %s; r_path := %s; r_ctype := %s; r_clen := %s; r_cookie := %s; r_basic := %s; r_tls := %s; r_host_ok := %s |}",
-		vfBytes(q.method), vfBytes(q.path), vfBytes(q.ctype), vfZ(clen), cookie, basic, vfBool(q.tls), vfBool(!q.badHost))
+	hs := make([]string, len(c11Hdrs[q.hdrs]))
+	for i, h := range c11Hdrs[q.hdrs] {
+		hs[i] = vfPair(vfBytes(h[0]), vfBytes(h[1]))
+	}
+	_ = users
+	return fmt.Sprintf("{| r_method := %s; r_path := %s; r_ctype := %s; r_clen := %s; r_cookie := %s; r_basic := %s; r_tls := %s; r_host_ok := %s; r_hdrs := %s |}",
+		vfBytes(q.method), vfBytes(q.path), vfBytes(q.ctype), vfZ(clen), cookie, basic, vfBool(q.tls), vfBool(!q.badHost), vfList("bytes * bytes", hs))
+}
+
+// c11BasicRight: does the request carry correct basic credentials, by the
+// property's reading (well-formed stored hash + bcrypt accepts)?
+func c11BasicRight(q c11Req) bool {
+	u, p, ok := c11Basic(q)
+	return ok && c11ShouldAuth(c11Accounts(), u, p)
 }
 
 func c11LocClass(loc string) int64 {
@@ -290,11 +484,11 @@ func (wd *c11World) probe(out *vfOut, c c11Chain, e c11Env, q c11Req) {
 	}
 	status := rec.Code
 	loc := c11LocClass(rec.Header().Get("Location"))
-	envCoq := c11EnvCoq(e, a != nil, now, ttl)
+	envCoq := c11EnvCoq(e, a != nil, now, ttl, q)
 	obs := fmt.Sprintf("{| C11.o_ran := %s; C11.o_status := %s; C11.o_loc := %s; C11.o_sess := %s |}",
 		vfBool(ran), vfZ(int64(status)), vfZ(loc), c11STable(a))
 	// the property, directly
-	authed := a != nil && (q.cookie == 3 || q.cookie == 4 || (q.cookie == 0 && q.basic == 2))
+	authed := a != nil && (q.cookie == 3 || q.cookie == 4 || (q.cookie == 0 && c11BasicRight(q)))
 	public := c11Public(q.path)
 	guardedChain := c.wrap == nil || c.name == "version.json" || c.name == "static"
 	monOK, msg, key := true, "", ""
@@ -333,6 +527,15 @@ func (wd *c11World) probe(out *vfOut, c c11Chain, e c11Env, q c11Req) {
 	}
 	if q.cookie >= 5 {
 		classes = append(classes, "cookie-other-spelling")
+	}
+	classes = append(classes, c11HdrClasses(q)...)
+	if q.basic == 3 && q.cookie == 0 && e.users && a != nil && !c11BasicRight(q) {
+		for _, u := range c11Accounts() {
+			if u.Name == q.buser && !c11WellFormedRe.MatchString(u.PasswordHash) {
+				classes = append(classes, "basic-unusable-hash")
+				break
+			}
+		}
 	}
 	if e.firstRun {
 		classes = append(classes, "first-run")
@@ -479,10 +682,10 @@ func (wd *c11World) boot(out *vfOut, users bool, db int, c c11Chain, q c11Req) {
 	}
 	status, loc := rec.Code, c11LocClass(rec.Header().Get("Location"))
 	e := c11Env{users: users}
-	envCoq := c11EnvCoq(e, a != nil, now, ttl)
+	envCoq := c11EnvCoq(e, a != nil, now, ttl, q)
 	obs := fmt.Sprintf("{| C11.o_ran := %s; C11.o_status := %s; C11.o_loc := %s; C11.o_sess := %s |}",
 		vfBool(ran), vfZ(int64(status)), vfZ(loc), c11STable(a))
-	authed := q.cookie == 3 || q.cookie == 4 || (q.cookie == 0 && q.basic == 2)
+	authed := q.cookie == 3 || q.cookie == 4 || (q.cookie == 0 && c11BasicRight(q))
 	monOK, msg, key := true, "", ""
 	if panicked != nil {
 		monOK, msg, key = false, fmt.Sprintf("panic: %v", panicked), "c11-panic"
@@ -594,11 +797,221 @@ func c11MuxProbe(out *vfOut, mux *http.ServeMux, what string, q c11Req, probeRan
 	})
 }
 
+// c11MuxBattery: one request of the method x header battery, without valid
+// credentials, through a real mux with real handlers.  The property's
+// refusal, judged from the outside: 403, or 302 to the login page.
+func c11MuxBattery(out *vfOut, mux *http.ServeMux, what string, q c11Req, pos string) {
+	rec := httptest.NewRecorder()
+	req := c11Build(q)
+	req.RequestURI = q.path
+	panicked := any(nil)
+	func() {
+		defer func() { panicked = recover() }()
+		mux.ServeHTTP(rec, req)
+	}()
+	status, loc := rec.Code, rec.Header().Get("Location")
+	refused := panicked == nil && (status == 403 || (status == 302 && c11LocClass(loc) == 1))
+	public := c11Public(req.URL.Path)
+	monOK, msg, key := true, "", ""
+	if !refused && !public {
+		monOK, key = false, "c11-route-unguarded:"+q.path
+		body := rec.Body.String()
+		if len(body) > 60 {
+			body = body[:60]
+		}
+		msg = fmt.Sprintf("%s: %s %s (registered at %s) with headers %v and no valid credentials (cookie shape %d, basic shape %d %q) was not refused: status %d, Location %q, body %q, panic %v",
+			what, q.method, q.path, pos, c11Hdrs[q.hdrs], q.cookie, q.basic, q.buser, status, loc, body, panicked)
+	}
+	cl := append([]string{what, "mux-refused"}, c11HdrClasses(q)...)
+	if !refused {
+		cl[1] = "mux-ran"
+	}
+	out.Emit(vfCase{
+		Coq: vfApp("C11.CMux", vfBool(public), vfBool(!refused)), Key: vfHash(what, q), Nontrivial: true,
+		MonitorOK: monOK, MonitorMsg: msg, FindingKey: key, Classes: cl,
+		Desc: map[string]any{"what": what, "request": fmt.Sprintf("%+v", q), "headers": fmt.Sprint(c11Hdrs[q.hdrs]), "status": status, "location": loc, "registered_at": pos},
+	})
+}
+
+// c11FindCases: findUser as its three callers see it, on account lists whose
+// stored hashes are well-formed, truncated, plain text, empty, of a cost
+// outside 4..31, of an unknown version or prefix.  One Auth object; its user
+// list is replaced for each case.
+func c11FindCases(out *vfOut, wd *c11World, rnd *vfRand) {
+	t := wd.t
+	a := InitAuth(filepath.Join(t.TempDir(), "sessions-find.db"), nil, 3600, nil, netutil.SliceSubnetSet(nil))
+	if a == nil {
+		t.Fatal("InitAuth failed")
+	}
+	defer a.Close()
+	globalContext.auth, globalContext.firstRun, globalContext.web = a, false, &webAPI{}
+	std := c11Accounts()
+	kindOf := func(h string) string {
+		switch {
+		case c11WellFormedRe.MatchString(h):
+			return "wellformed"
+		case h == "":
+			return "empty"
+		case !strings.HasPrefix(h, "$"):
+			return "plain-or-prefix"
+		case len(h) < 59:
+			return "truncated"
+		case len(h) == 59:
+			return "short-by-one"
+		case strings.HasPrefix(h, "$2"):
+			return "bad-cost"
+		}
+		return "bad-version"
+	}
+	one := func(us []webUser, login, pw, tag string) {
+		a.lock.Lock()
+		a.users = append([]webUser{}, us...)
+		a.lock.Unlock()
+		// (1) findUser itself
+		u, found := a.findUser(login, pw)
+		idx := 0
+		for i, x := range us {
+			if x.Name == u.Name && x.PasswordHash == u.PasswordHash {
+				idx = i
+				break
+			}
+		}
+		// (2) POST /control/login behind its real chain
+		body, _ := json.Marshal(loginJSON{Name: login, Password: pw})
+		r := httptest.NewRequest("POST", "http://agh.example/control/login", strings.NewReader(string(body)))
+		r.Header.Set("Content-Type", "application/json")
+		r.RemoteAddr = "192.0.2.9:4321"
+		rec := httptest.NewRecorder()
+		postInstallHandler(ensureHandler(http.MethodPost, handleLogin)).ServeHTTP(rec, r)
+		cookie := ""
+		for _, c := range rec.Result().Cookies() {
+			if c.Name == sessionCookieName {
+				cookie = c.Value
+			}
+		}
+		a.lock.Lock()
+		nsess := len(a.sessions)
+		a.lock.Unlock()
+		if cookie != "" {
+			a.removeSession(cookie)
+		}
+		// (3) basic credentials behind the chain of /control/version.json
+		ran := false
+		h := postInstall(optionalAuth(func(w http.ResponseWriter, _ *http.Request) { ran = true; w.WriteHeader(http.StatusOK) }))
+		r2 := httptest.NewRequest("GET", "http://agh.example/p", nil)
+		r2.SetBasicAuth(login, pw)
+		rec2 := httptest.NewRecorder()
+		h(rec2, r2)
+
+		should := c11ShouldAuth(us, login, pw)
+		monOK, msg, key := true, "", ""
+		fail := func(m string) {
+			if monOK {
+				monOK, msg, key = false, m, "c11-finduser"
+			}
+		}
+		hashes := []string{}
+		for _, x := range us {
+			if x.Name == login {
+				hashes = append(hashes, fmt.Sprintf("%q (%s)", x.PasswordHash, kindOf(x.PasswordHash)))
+			}
+		}
+		if len(us) > 0 {
+			if found != should {
+				fail(fmt.Sprintf("findUser(%q, %q) = %v; the stored hashes under that name are %v: correct credentials means a well-formed hash that bcrypt accepts", login, pw, found, hashes))
+			}
+			if (rec.Code == 200 || cookie != "" || nsess != 0) && !should {
+				fail(fmt.Sprintf("POST /control/login {%q, %q}: status %d, cookie issued %v, sessions %d; the stored hashes under that name are %v", login, pw, rec.Code, cookie != "", nsess, hashes))
+			}
+			if should && !(rec.Code == 200 && cookie != "") {
+				fail(fmt.Sprintf("POST /control/login with correct credentials {%q, %q}: status %d, cookie issued %v", login, pw, rec.Code, cookie != ""))
+			}
+			if ran != should {
+				fail(fmt.Sprintf("basic credentials %q:%q behind postInstall(optionalAuth): handler ran = %v (status %d); the stored hashes under that name are %v", login, pw, ran, rec2.Code, hashes))
+			}
+		}
+		classes := []string{"find-" + tag}
+		seen := map[string]bool{}
+		for _, x := range us {
+			if x.Name == login {
+				k := "find-hash-" + kindOf(x.PasswordHash)
+				if !seen[k] {
+					seen[k] = true
+					classes = append(classes, k)
+				}
+				classes = append(classes, "find-oracle-"+c11BcNames[c11Bcrypt(x.PasswordHash, pw)])
+			}
+		}
+		if found {
+			classes = append(classes, "find-found", "login-200")
+		} else {
+			classes = append(classes, "find-not-found", "login-403")
+		}
+		out.Emit(vfCase{
+			Coq: vfApp("C11.CFind", c11AccountsCoq(us), c11Oracle(us, login, pw), vfBytes(login), vfBytes(pw),
+				vfBool(found), vfN(uint64(idx)), vfZ(int64(rec.Code)), vfBool(cookie != ""), vfBool(ran)),
+			Nontrivial: !found, MonitorOK: monOK, MonitorMsg: msg, FindingKey: key, Classes: classes,
+			Desc: map[string]any{"kind": "findUser", "accounts": fmt.Sprintf("%+v", us), "login": login, "password": pw, "found": found,
+				"login_status": rec.Code, "cookie_issued": cookie != "", "basic_ran": ran},
+		})
+	}
+	// constructed: every std account x passwords; single-account lists of each kind
+	pws := []string{c12Pass, "wrong", "", "x"}
+	for _, u := range std {
+		for _, pw := range append(pws, u.PasswordHash) {
+			one(std, u.Name, pw, "std")
+			one([]webUser{u}, u.Name, pw, "single")
+		}
+	}
+	one(std, "nobody", c12Pass, "std")
+	one(std, "", "", "std")
+	one(nil, c12User, c12Pass, "no-users")
+	// the shadowing pair in both orders
+	one([]webUser{std[11], std[10]}, "dup", c12Pass, "dup-order")
+	one([]webUser{std[10], std[11]}, "dup", c12Pass, "dup-order")
+	one([]webUser{std[10], std[11]}, "dup", "wrong", "dup-order")
+	// random: mutated hashes (cut at a random length, cost digits, version
+	// byte, prefix byte replaced), random order, duplicated names
+	n := out.Scale(120, 1500)
+	for i := 0; i < n; i++ {
+		k := 1 + rnd.Intn(4)
+		us := make([]webUser, k)
+		for j := range us {
+			base := vfPick(rnd, []string{c11H1, c11H2, c11H3})
+			hsh := base
+			switch rnd.Intn(8) {
+			case 0:
+				hsh = base[:rnd.Intn(len(base)+1)]
+			case 1:
+				// (costs 7..31 are valid and slow: 2^cost key expansions)
+				hsh = base[:4] + fmt.Sprintf("%02d", vfPick(rnd, []int{0, 1, 2, 3, 4, 5, 6, 32, 33, 39, 99})) + base[6:]
+			case 2:
+				hsh = "$" + string(rune('0'+rnd.Intn(10))) + base[2:]
+			case 3:
+				hsh = vfPick(rnd, []string{"", c12Pass, "x", "$", "$2", "$2a$", "$2a$04$"})
+			case 4:
+				b := []byte(base)
+				if k := rnd.Intn(len(b)); k != 4 && k != 5 {
+					b[k] = vfPick(rnd, []byte{'$', 'A', '.', '0', ' '})
+				}
+				hsh = string(b)
+			}
+			us[j] = webUser{Name: vfPick(rnd, []string{"a", "b", c12User}), PasswordHash: hsh}
+		}
+		one(us, vfPick(rnd, []string{"a", "b", c12User, "c"}), vfPick(rnd, pws), "random")
+	}
+}
+
 func TestVerifC11(t *testing.T) {
 	out := vfOpen(t, "C11")
 	defer out.Close()
 	rnd := vfNewRand(out.Seed)
-	users := c12Users(t)
+	users := c11Accounts()
+	for _, u := range users[:2] {
+		if c11Bcrypt(u.PasswordHash, c12Pass) != 0 {
+			t.Fatalf("the fixed hash of account %q does not accept the harness password", u.Name)
+		}
+	}
 	dir := t.TempDir()
 	wd := &c11World{t: t, users: users}
 	wd.auth = InitAuth(filepath.Join(dir, "sessions.db"), users, 2592000, nil, netutil.SliceSubnetSet(nil))
@@ -667,6 +1080,59 @@ func TestVerifC11(t *testing.T) {
 		}
 	}
 
+	// --- round 3: the accounts behind every env with users (tie of
+	// Run/C11.v std_accounts to the real Auth object)
+	{
+		wd.auth.lock.Lock()
+		real := append([]webUser{}, wd.auth.users...)
+		wd.auth.lock.Unlock()
+		out.Emit(vfCase{Coq: vfApp("C11.CAccounts", c11AccountsCoq(real)), Nontrivial: true, MonitorOK: true, Classes: []string{"accounts-tie"},
+			Desc: map[string]any{"kind": "accounts of the Auth object", "n": len(real)}})
+	}
+	// --- round 3: method x header battery behind the chains without a method
+	// gate (version.json, static) and behind httpRegister: constructed,
+	// seed-independent.  First the preflight shape (OPTIONS + Origin) with
+	// every credential shape, then every method x every header set without
+	// credentials.
+	verChain, staticChain := chains[4], chains[len(chains)-1]
+	batChains := []c11Chain{verChain, staticChain, chains[0], chains[1]}
+	credShapes := []c11Req{{}, {cookie: 1}, {cookie: 2}, {basic: 1}, {cookie: 3}, {basic: 2}, {cookie: 5},
+		{basic: 3, buser: "trunc", bpass: c12Pass}, {basic: 3, buser: "plain", bpass: c12Pass}}
+	for _, c := range batChains {
+		for hi := range c11Hdrs {
+			for _, cs := range credShapes {
+				q := cs
+				q.method, q.path, q.hdrs = "OPTIONS", ctl, hi
+				wd.probe(out, c, normal, q)
+			}
+		}
+		for _, m := range c11Methods {
+			for hi := range c11Hdrs {
+				if m == "OPTIONS" {
+					continue
+				}
+				q := c11Req{method: m, path: ctl, hdrs: hi}
+				if c.name == "static" && hi%3 == 0 {
+					q.path = "/"
+				}
+				wd.probe(out, c, normal, q)
+			}
+		}
+	}
+	// --- round 3: basic credentials naming each account, right-looking /
+	// wrong / empty password, behind httpRegister(GET), version.json, static
+	for _, c := range []c11Chain{chains[0], verChain, staticChain} {
+		for _, u := range users {
+			for _, pw := range []string{c12Pass, "wrong", "", u.PasswordHash} {
+				wd.probe(out, c, normal, c11Req{method: "GET", path: ctl, basic: 3, buser: u.Name, bpass: pw})
+			}
+		}
+		wd.probe(out, c, normal, c11Req{method: "GET", path: ctl, basic: 3, buser: "nobody", bpass: c12Pass})
+		wd.probe(out, c, normal, c11Req{method: "GET", path: ctl, basic: 3, buser: "", bpass: ""})
+	}
+	// --- round 3: findUser / handleLogin / basic auth on account lists
+	c11FindCases(out, wd, rnd)
+
 	// --- start-up: every state of sessions.db x users configured or not x
 	// credential shapes, behind httpRegister(POST), httpRegister(GET) and the
 	// static chain
@@ -695,6 +1161,15 @@ func TestVerifC11(t *testing.T) {
 		e := c11Env{users: !rnd.Chance(1, 8), firstRun: rnd.Chance(1, 10), https: vfPick(rnd, []int{0, 0, 0, 1, 2}), noAuth: rnd.Chance(1, 25)}
 		q := c11Req{method: vfPick(rnd, methods), path: ctl, ctype: vfPick(rnd, ctypes), body: rnd.Intn(3), cookie: rnd.Intn(7),
 			basic: rnd.Intn(3), tls: rnd.Chance(1, 4), badHost: rnd.Chance(1, 20)}
+		if rnd.Chance(1, 3) {
+			q.method = vfPick(rnd, c11Methods)
+		}
+		if rnd.Chance(1, 2) {
+			q.hdrs = rnd.Intn(len(c11Hdrs))
+		}
+		if rnd.Chance(1, 6) {
+			q.basic, q.buser, q.bpass = 3, vfPick(rnd, users).Name, vfPick(rnd, []string{c12Pass, "wrong", "", "x"})
+		}
 		if c.method != "" && rnd.Chance(2, 3) {
 			q.method = c.method
 		}
@@ -760,13 +1235,23 @@ func TestVerifC11(t *testing.T) {
 		f()
 		called = append(called, name)
 	}
-	try("registerControlHandlers", func() { registerControlHandlers(&webAPI{}) })
+	// round 3: the mux is built by the real newWebAPI (post-install branch):
+	// the real static file server on "/" behind the real middlewares, then
+	// registerControlHandlers (version.json with its real handler, update
+	// checks disabled so that it answers without the network)
+	try("newWebAPI", func() {
+		l := slogutil.NewDiscardLogger()
+		globalContext.web = newWebAPI(context.Background(), &webConfig{
+			logger: l, baseLogger: l, firstRun: false, disableUpdate: true,
+			clientFS: fstest.MapFS{
+				"index.html":    &fstest.MapFile{Data: []byte("<html>VERIF-DASHBOARD</html>")},
+				"login.html":    &fstest.MapFile{Data: []byte("<html>login</html>")},
+				"assets/app.js": &fstest.MapFile{Data: []byte("// js")},
+			},
+		})
+	})
 	try("clients.registerWebHandlers", func() { (&clientsContainer{}).registerWebHandlers() })
 	try("tlsManager.registerWebHandlers", func() { (&tlsManager{}).registerWebHandlers() })
-	try("static", func() {
-		globalContext.mux.Handle("/", withMiddlewares(http.HandlerFunc(func(w http.ResponseWriter, _ *http.Request) { w.WriteHeader(299) }),
-			gziphandler.GzipHandler, optionalAuthHandler, postInstallHandler))
-	})
 	out.Note("real-registrations", called)
 	homeMux := globalContext.mux
 	for _, rt := range routes {
@@ -854,6 +1339,67 @@ func TestVerifC11(t *testing.T) {
 				FindingKey: "c11-registered-route-not-in-table:" + k, Classes: []string{"pkg-real-registration"}})
 		}
 	}
+	// (1c) round 3: every method x header battery against the REAL muxes.
+	// The routes without a method gate (version.json, the static file server)
+	// and two gated ones get the full product; every other route of the
+	// table gets every method with the Origin header and one more header set
+	// (thorough: all of them).  Refused = 403 or the redirect to the login
+	// page, nothing else.
+	batCreds := []c11Req{{}, {cookie: 1}, {basic: 1}, {cookie: 2}, {basic: 3, buser: "trunc", bpass: c12Pass}, {cookie: 5}, {basic: 3, buser: "empty", bpass: ""}}
+	bi := 0
+	for _, p := range []string{"/control/version.json", "/", "/index.html", "/control/status", "/control/profile/update", "/nonexistent.html"} {
+		for _, m := range c11Methods {
+			for hi := range c11Hdrs {
+				q := batCreds[bi%len(batCreds)]
+				bi++
+				q.method, q.path, q.hdrs = m, p, hi
+				c11MuxBattery(out, homeMux, "home-real-battery", q, "newWebAPI")
+				if m == "OPTIONS" && hi > 0 && hi < 3 {
+					for _, cs := range batCreds {
+						q2 := cs
+						q2.method, q2.path, q2.hdrs = m, p, hi
+						c11MuxBattery(out, homeMux, "home-real-battery", q2, "newWebAPI")
+					}
+				}
+			}
+		}
+	}
+	for _, rt := range routes {
+		var mux *http.ServeMux
+		what := ""
+		switch {
+		case rt.Kind == "Unresolved" || c11Exception(rt.Pattern) || rt.Pattern == "/" || strings.Contains(rt.Pos, "_windows.go"):
+			continue
+		case strings.Contains(rt.Func, "/internal/home."):
+			mux, what = homeMux, "home-real-battery"
+		case rt.Kind == "ViaRegister":
+			if _, ok := made[rt.Method+" "+rt.Pattern]; !ok {
+				continue
+			}
+			mux, what = pkgMux, "pkg-real-battery"
+		default:
+			continue
+		}
+		for _, m := range c11Methods {
+			his := []int{1, 2 + rnd.Intn(len(c11Hdrs)-2)}
+			if out.Thorough() {
+				his = his[:0]
+				for hi := range c11Hdrs {
+					his = append(his, hi)
+				}
+			}
+			for _, hi := range his {
+				q := batCreds[bi%len(batCreds)]
+				bi++
+				q.method, q.path, q.hdrs = m, rt.Pattern, hi
+				if m != "GET" && m != "HEAD" && rnd.Chance(1, 2) {
+					q.ctype, q.body = "application/json", 1
+				}
+				c11MuxBattery(out, mux, what, q, rt.Pos)
+			}
+		}
+	}
+
 	// (2) every route registered through a RegisterFunc anywhere: a probe
 	// handler through the real httpRegister, all on one mux, with spellings
 	globalContext.mux = http.NewServeMux()
